@@ -83,6 +83,35 @@ def gen_reg(repo):
         mm = re.compile(pat).search(gb, pos)
         if not mm: raise ExtractError(f'GC_Set: expected /{pat}/ in order')
         pos = mm.end()
+    # --- GC_Rem_Ptr: the strike-off scan compares raw words (a struck-off slot holds NULL) and there is no NULL test before it;
+    #     GC_Sweep's last loop clears the slot before it finalises and skips NULL words (the model and the theorems
+    #     C17_null_del_in_sweep_refuted / NoNull depend on exactly this)
+    rb = func_body(src, 'GC_Rem_Ptr')
+    pos = 0
+    for pat in [r'^\s*if\s*\(\s*gc->nslots\s+is\s+0\s*\)\s*\{\s*return\s*;\s*\}',
+                r'for\s*\(\s*size_t\s+i\s*=\s*0\s*;\s*i\s*<\s*gc->freenum\s*;\s*i\+\+\s*\)\s*\{\s*if\s*\(\s*gc->freelist\[i\]\s+is\s+ptr\s*\)\s*\{',
+                r'gc->freelist\[i\]\s*=\s*NULL\s*;', r'dealloc\(destruct\(ptr\)\)\s*;\s*return\s*;',
+                r'uint64_t\s+i\s*=\s*GC_Hash\(ptr\)\s*%\s*gc->nslots\s*;', r'gc->nitems--\s*;', r'dealloc\(destruct\(freeitem\)\)\s*;']:
+        mm = re.compile(pat).search(rb, pos)
+        if not mm: raise ExtractError(f'GC_Rem_Ptr: expected /{pat}/ in order')
+        pos = mm.end()
+    wb = func_body(src, 'GC_Sweep')
+    pos = 0
+    for pat in [r'gc->freelist\s*=\s*realloc\(gc->freelist,\s*sizeof\(var\)\s*\*\s*gc->nitems\)\s*;', r'gc->freenum\s*=\s*0\s*;',
+                r'gc->freelist\[gc->freenum\]\s*=\s*gc->entries\[i\]\.ptr\s*;', r'GC_Resize_Less\(gc\)\s*;',
+                r'var\s+item\s*=\s*gc->freelist\[i\]\s*;\s*if\s*\(\s*item\s*\)\s*\{\s*gc->freelist\[i\]\s*=\s*NULL\s*;\s*dealloc\(destruct\(item\)\)\s*;']:
+        mm = re.compile(pat).search(wb, pos)
+        if not mm: raise ExtractError(f'GC_Sweep: expected /{pat}/ in order')
+        pos = mm.end()
+    mb = func_body(src, 'GC_Rem')
+    if not re.search(r'if\s*\(\s*not\s+gc->running\s*\)\s*\{\s*return\s*;\s*\}\s*GC_Rem_Ptr\(gc,\s*key\)\s*;\s*GC_Resize_Less\(gc\)\s*;', mb):
+        raise ExtractError('GC_Rem: expected `if (not gc->running) { return; } GC_Rem_Ptr(gc, key); GC_Resize_Less(gc);`')
+    # --- Alloc.c: dealloc / dealloc_raw / dealloc_root do not tell the collector (C17_dealloc_refuted depends on it)
+    asrc = read(f'{repo}/src/Alloc.c')
+    db = func_body(asrc, 'dealloc')
+    if re.search(r'current\(GC\)|\brem\(|GC_', db): raise ExtractError('dealloc now talks to the collector: the model of `dealloc` (registry untouched) is stale')
+    for f in ('dealloc_raw', 'dealloc_root'):
+        if not re.fullmatch(r'\s*dealloc\(self\)\s*;\s*', func_body(asrc, f)): raise ExtractError(f'{f}: expected `{{ dealloc(self); }}`')
     # --- struct GCEntry
     m = re.search(r'struct\s+GCEntry\s*\{([^}]*)\}', src)
     if not m: raise ExtractError('struct GCEntry not found')
